@@ -18,7 +18,7 @@
     of Bonnet's recurrence, stopped at a step of at most 1e-14. *)
 From Coq Require Import Reals ZArith List.
 From Coquelicot Require Import Coquelicot.
-From LP Require Import Num NumR C12_Model C12_Proofs C12_Proofs_B C12_Proofs_C.
+From LP Require Import Num NumR C12_Model C12_Proofs C12_Proofs_B C12_Proofs_C C12_Proofs_D Gen_C12_Formulas C12_GenTie.
 Import ListNotations.
 Local Open Scope R_scope.
 
@@ -304,3 +304,118 @@ Example C12_values_linear_hyp :
   length [1; 2; 3] = length rw /\ length [4; 5; 6] = length rw /\ two_col rw = true /\
   gl_integrate_values ROps [1; 2; 3] rw = Ok (0 + 1 * 1 + 2 * 2 + 3 * 1).
 Proof. exact ex_values_linear. Qed.
+
+(** ** Seventh pass: the mirrored assignment for doubles as they are; why mirroring is right; exactness on the odd part *)
+
+(** "mirrored node/weight assignment" for EVERY number type (no law is assumed of it, so for doubles verbatim, NaN and inf included):
+    the table has n two-entry rows; the weights of rows i and n-1-i are the same object for every i; below the middle, row i is
+    (xm - hw*z_i, w_i) and row n-1-i is (xm + hw*z_i, w_i) with w_i = 2 hw/((1 - z_i z_i) pp_i pp_i) ([row_lo], [row_hi]: the source's
+    expressions in the source's operation order); for odd n the middle row, written twice, ends as the "+" row of the last pair *)
+Theorem C12_mirror_every_number_type {T} (Ops : NumOps T) n a b zs : (1 <= n)%nat -> length zs = gl_m n ->
+  length (gl_assemble Ops n a b zs) = n /\
+  two_col (rows_of (gl_assemble Ops n a b zs)) = true /\
+  (forall i d, (i < n)%nat ->
+     snd (nth i (gl_assemble Ops n a b zs) d) = snd (nth (n - 1 - i) (gl_assemble Ops n a b zs) d)) /\
+  (forall i d dz, (i < n - gl_m n)%nat ->
+     nth i (gl_assemble Ops n a b zs) d = row_lo Ops (gl_mid Ops a b) (gl_hw Ops a b) (nth i zs dz) /\
+     nth (n - 1 - i) (gl_assemble Ops n a b zs) d = row_hi Ops (gl_mid Ops a b) (gl_hw Ops a b) (nth i zs dz)) /\
+  (forall d dz, Nat.odd n = true ->
+     nth (gl_m n - 1) (gl_assemble Ops n a b zs) d = row_hi Ops (gl_mid Ops a b) (gl_hw Ops a b) (nth (gl_m n - 1) zs dz)).
+Proof. exact (assemble_mirror_generic Ops n a b zs). Qed.
+Print Assumptions C12_mirror_every_number_type.
+
+(** why only m = (n+1)/2 Newton iterations are run and the other half is assigned by mirroring: the polynomial of the source's
+    recurrence satisfies P_n(-z) = (-1)^n P_n(z), P_n'(-z) = -(-1)^n P_n'(z), for every n and z; hence the negative of a root is a root,
+    the weight expression 2/((1-z^2) pp^2) has the same value at the mirrored root, and Newton's map commutes with the reflection
+    (the iteration started from the mirrored guess would deliver exactly the mirrored results) *)
+Theorem C12_legendre_parity n z :
+  Leg n (- z) = (-1) ^ n * Leg n z /\
+  dLeg n (- z) = - (-1) ^ n * dLeg n z /\
+  (Leg n z = 0 -> Leg n (- z) = 0) /\
+  wref (- z, dLeg n (- z)) = wref (z, dLeg n z) /\
+  (dLeg n z <> 0 -> newton_next n (- z) = - newton_next n z).
+Proof. exact (legendre_parity n z). Qed.
+Print Assumptions C12_legendre_parity.
+
+(** "lie strictly inside the interval": the end points of [-1,1] are never roots of the polynomial the Newton stage works on
+    (P_n(1) = 1, P_n(-1) = (-1)^n, every n), so an exact root never maps to a or b *)
+Theorem C12_legendre_endpoints n : Leg n 1 = 1 /\ Leg n (-1) = (-1) ^ n /\ Leg n 1 <> 0 /\ Leg n (-1) <> 0.
+Proof. exact (legendre_endpoints n). Qed.
+Print Assumptions C12_legendre_endpoints.
+
+(** "the mirror assignment for odd n (the middle node is written twice)": the root the middle pass of an odd order looks for is
+    exactly 0 (P_n(0) = 0 for every odd n), i.e. the value for which C12_nodes_weights_symmetric gives full symmetry *)
+Theorem C12_odd_middle_root n : Nat.odd n = true -> Leg n 0 = 0.
+Proof. exact (legendre_odd_root_0 n). Qed.
+Print Assumptions C12_odd_middle_root.
+
+(** "the rule integrates every polynomial of degree at most 2n-1 exactly", the odd half as a theorem for EVERY order n, EVERY interval
+    (either orientation) and WHATEVER the Newton stage delivers (for odd n: provided the middle node is the midpoint): every integrable
+    function that is odd about the midpoint -- every odd centred monomial (x - mid)^(2k+1) of every degree -- is integrated exactly;
+    and the rule sees only the even part of its integrand.  What remains for correspondence/S4 are the even centred moments. *)
+Theorem C12_odd_part_exact f n a b zs : (1 <= n)%nat -> length zs = gl_m n ->
+  (Nat.odd n = true -> (b - a) * zval zs ((n - 1) / 2) = 0) ->
+  (forall x, f (a + b - x) = - f x) ->
+  rule_sum f (gl_assemble ROps n a b zs) = 0 /\
+  (ex_RInt f a b -> rule_sum f (gl_assemble ROps n a b zs) = RInt f a b).
+Proof.
+  exact (fun Hn Hl Hm Hf => conj (odd_part_exact f n a b zs Hn Hl Hm Hf) (fun Hex => odd_part_exact_RInt f n a b zs Hn Hl Hm Hex Hf)).
+Qed.
+Print Assumptions C12_odd_part_exact.
+
+Theorem C12_even_part_only f n a b zs : (1 <= n)%nat -> length zs = gl_m n ->
+  (Nat.odd n = true -> (b - a) * zval zs ((n - 1) / 2) = 0) ->
+  rule_sum f (gl_assemble ROps n a b zs) = rule_sum (fun x => (f x + f (a + b - x)) / 2) (gl_assemble ROps n a b zs).
+Proof. exact (even_part_only f n a b zs). Qed.
+Print Assumptions C12_even_part_only.
+
+(** the hypotheses are satisfiable: the three-point table of C12_valid_rule_hyp_3 (middle root exactly 0) on [1,5] and f(x) = x - 3 *)
+Example C12_odd_part_hyp : (1 <= 3)%nat /\ length [(3/4, 1); (0, 2)] = gl_m 3 /\
+  (Nat.odd 3 = true -> (5 - 1) * zval [(3/4, 1); (0, 2)] ((3 - 1) / 2) = 0) /\ (forall x, (fun t => t - 3) (1 + 5 - x) = - (fun t => t - 3) x).
+Proof. exact ex_odd_part. Qed.
+
+(** ** T-tie: the formula sites of Compute_Gauss_Legendre_Roots_and_Weights regenerated from clang's AST on every run
+    (Gen_C12_Formulas.v) are the terms of the hand model, for every number type; the statement skeleton around them is compared by
+    the generator (tools/cxx2gallina_C12.py) *)
+Theorem C12_generated_eps_mid_hw_is_model {T} (Ops : NumOps T) (xmin xmax : T) :
+  g_gl_eps Ops = gl_eps Ops /\ g_gl_mid Ops xmin xmax = gl_mid Ops xmin xmax /\ g_gl_hw Ops xmin xmax = gl_hw Ops xmin xmax.
+Proof. exact (conj (gen_eps Ops) (conj (gen_mid Ops xmin xmax) (gen_hw Ops xmin xmax))). Qed.
+Print Assumptions C12_generated_eps_mid_hw_is_model.
+
+Theorem C12_generated_guess_is_model {T} (Ops : NumOps T) (n i : Z) : g_gl_guess Ops (m_pi Ops) n i = gl_guess Ops (nofZ Ops n) i.
+Proof. exact (gen_guess Ops n i). Qed.
+Print Assumptions C12_generated_guess_is_model.
+
+Theorem C12_generated_legendre_step_is_model {T} (Ops : NumOps T) c j z p1 p2 :
+  legendre Ops (S c) j z p1 p2 =
+  legendre Ops c (j + 1)%Z z (g_gl_leg_step Ops j z (g_gl_p2 Ops p1) (g_gl_p3 Ops p2)) (g_gl_p2 Ops p1).
+Proof. exact (gen_legendre_step Ops c j z p1 p2). Qed.
+Print Assumptions C12_generated_legendre_step_is_model.
+
+Theorem C12_generated_newton_step_is_model {T} (Ops : NumOps T) f n (nz : Z) z :
+  newton Ops (S f) n (nofZ Ops nz) z =
+  let '(p1, p2) := legendre Ops n 0%Z z (g_gl_p1_init Ops) (g_gl_p2_init Ops) in
+  let pp := g_gl_pp Ops nz z p1 p2 in
+  let z1 := g_gl_z1 Ops z in
+  let z' := g_gl_newton_z Ops z1 p1 pp in
+  if g_gl_stop Ops z' z1 (g_gl_eps Ops) then Ok (z', pp) else newton Ops f n (nofZ Ops nz) z'.
+Proof. exact (gen_newton_step Ops f n nz z). Qed.
+Print Assumptions C12_generated_newton_step_is_model.
+
+Theorem C12_generated_store_is_model {T} (Ops : NumOps T) n xm hw tab i zp :
+  gl_store Ops n xm hw tab i zp =
+  let z := fst zp in let pp := snd zp in
+  let k := (n - i - 1)%nat in
+  let t1 := upd tab i (fun r => (g_gl_node_lo Ops xm hw z, snd r)) in
+  let t2 := upd t1 k (fun r => (g_gl_node_hi Ops xm hw z, snd r)) in
+  let t3 := upd t2 i (fun r => (fst r, g_gl_weight Ops hw z pp)) in
+  upd t3 k (fun r => (fst r, snd (nth i t3 (zero Ops, zero Ops)))).
+Proof. exact (gen_store Ops n xm hw tab i zp). Qed.
+Print Assumptions C12_generated_store_is_model.
+
+(** the integer expressions (unsigned arithmetic of the source) are the nat expressions of the model for every order below 2^32 - 1 *)
+Theorem C12_generated_indices_is_model {T} (Ops : NumOps T) n :
+  ((Z.of_nat n + 1 < 4294967296)%Z -> g_gl_m Ops (Z.of_nat n) = Z.of_nat (gl_m n)) /\
+  (forall i, (i < n)%nat -> (Z.of_nat n < 4294967296)%Z -> g_gl_mirror_index (Z.of_nat n) (Z.of_nat i) = Z.of_nat (n - i - 1)).
+Proof. exact (conj (gen_m Ops n) (fun i => gen_mirror_index n i)). Qed.
+Print Assumptions C12_generated_indices_is_model.
